@@ -5,6 +5,19 @@ use tea_dtype::{DateTime, unit};
 
 use crate::prelude::*;
 
+/// Staging buffer for results that are stored by index. A `ChunkedArray` cannot be
+/// written in place, so `Vec1::uninit` hands out this buffer (every slot starts as
+/// null) and `UninitVec::assume_init` collects it into the array.
+#[derive(Debug, Clone)]
+pub struct ChunkedUninit<T>(Vec<Option<T>>);
+
+impl<T> GetLen for ChunkedUninit<T> {
+    #[inline]
+    fn len(&self) -> usize {
+        self.0.len()
+    }
+}
+
 macro_rules! impl_for_ca {
     (to_iter, $real: ty => $($ForType: ty),*) => {
         $(
@@ -67,8 +80,8 @@ macro_rules! impl_for_ca {
 
     (vec $real: ty => $($ForType: ty),*) => {
         $(impl Vec1<Option<$real>> for $ForType {
-            type Uninit = $ForType;
-            type UninitRefMut<'a> = &'a mut $ForType;
+            type Uninit = ChunkedUninit<$real>;
+            type UninitRefMut<'a> = &'a mut ChunkedUninit<$real>;
 
             #[inline]
             fn collect_from_iter<I: Iterator<Item = Option<$real>>>(iter: I) -> Self {
@@ -84,7 +97,7 @@ macro_rules! impl_for_ca {
             #[inline]
             fn uninit(len: usize) -> Self::Uninit
             {
-                ChunkedArray::full_null("".into(), len)
+                ChunkedUninit(vec![None; len])
             }
 
             #[inline]
@@ -116,27 +129,27 @@ macro_rules! impl_for_ca {
             impl_for_ca!(view_mut $real=>ChunkedArray<$type>);
             impl_for_ca!(vec $real=>ChunkedArray<$type>);
 
-            impl UninitVec<Option<$real>> for ChunkedArray<$type>
+            impl UninitVec<Option<$real>> for ChunkedUninit<$real>
             {
                 type Vec = ChunkedArray<$type>;
 
-                #[inline(always)]
+                #[inline]
                 unsafe fn assume_init(self) -> Self::Vec {
-                    self
+                    self.0.into_iter().collect_trusted()
                 }
 
                 #[inline]
-                unsafe fn uset(&mut self, _idx: usize, _v: Option<$real>) {
-                    unimplemented!("polars backend do not support set in given index");
-                }
+                unsafe fn uset(&mut self, idx: usize, v: Option<$real>) { unsafe {
+                    *self.0.get_unchecked_mut(idx) = v;
+                }}
             }
 
 
-            impl UninitRefMut<Option<$real>> for &mut ChunkedArray<$type> {
+            impl UninitRefMut<Option<$real>> for &mut ChunkedUninit<$real> {
                 #[inline]
-                unsafe fn uset(&mut self, _idx: usize, _v: Option<$real>) {
-                    unimplemented!("polars backend do not support set in given index");
-                }
+                unsafe fn uset(&mut self, idx: usize, v: Option<$real>) { unsafe {
+                    *self.0.get_unchecked_mut(idx) = v;
+                }}
             }
 
         )*
